@@ -188,11 +188,14 @@ def run(p, led, tier):
     led.rule("C06-R6", "the count strategy's criterion is evaluated against the current colony, also after agents were added or removed", 2)
     for cls_, thr, label in ((qs, None, "QuorumSensing THRESHOLD default"), (eq, None, "EmergencyQuorum (fraction 0.3)")):
         bad6, n6 = [], 0
-        for start, end in ((2, 5), (5, 2), (3, 3)):
+        for start, end, prior in [(s_, e_, pr_) for (s_, e_) in ((2, 5), (5, 2), (3, 3), (1, 5), (7, 2)) for pr_ in (False, True)]:
             for permits in range(0, end + 1):
                 def go6(o):
                     it = Interp(p, o)
                     qo = mk_quorum(it, cls_, "THRESHOLD", thr, start)
+                    if prior:
+                        # a vote has already been held with the old colony: nothing it left behind may decide the next one
+                        it.call_fi(agg, [qo, ballots(it, (start, 0, 0, 0), 1.0, 1.0)], {})
                     if end > start and add is not None:
                         for i in range(end - start):
                             it.call_fi(add, [qo, f"late{i}"], {})
@@ -207,7 +210,7 @@ def run(p, led, tier):
                     n6 += 1
                     need = max(1, _math.ceil(0.3 * size)) if cls_ is eq else size // 2 + 1
                     if reached is not (permits >= need):
-                        bad6.append(f"colony {start}→{size}, {permits} permit / {size - permits} block: reached={reached}, criterion needs {need}")
+                        bad6.append(f"colony {start}→{size}{' after an earlier vote' if prior else ''}, {permits} permit / {size - permits} block: reached={reached}, criterion needs {need}")
         key = f"{label} ▸ criterion after membership changes"
         if bad6:
             led.fail("C06-R6", key, where(agg, agg.node), f"{len(bad6)} of {n6} ballots decided against the stated criterion, e.g. {bad6[0]}",
@@ -276,6 +279,56 @@ def run(p, led, tier):
         led.fail("C06-R5", key, where(p2v, p2v.node), badm[0])
     else:
         led.ok("C06-R5", key, where(p2v, p2v.node), f"alphabet {alphabet}: PERMIT/EXECUTE → PERMIT, nothing else")
+
+    # ---------------- R8 every colony member is polled once and every ballot cast is counted (run_vote, namesakes included)
+    led.rule("C06-R8", "run_vote polls every colony member once and counts one ballot per member, also for members that share a name, for members added later and across repeated votes", 1)
+    add_ = p.find_method(qs, "add_agent")
+    import itertools as _it8
+    bad8, n8 = [], 0
+    for names in (("a", "b", "c"), ("r", "r", "r"), ("a", "r", "r"), ("r", "a", "r"), ("r", "r")):
+        for verdicts in _it8.product(("PERMIT", "BLOCK", "CRASH"), repeat=len(names)):
+            for strategy in ("MAJORITY", "UNANIMOUS"):
+                def go8(o, _names=names, _verdicts=verdicts, _st=strategy):
+                    it = Interp(p, o)
+                    qo = mk_quorum(it, qs, _st, None, 0)
+                    qo.fields["colony"][:] = []
+                    profs = [it.call_fi(add_, [qo, nm_], {}) for nm_ in _names]
+                    agents = [pr_.fields["agent"] for pr_ in profs]
+                    polled = []
+
+                    def express(interp, args, kwargs):
+                        i = next(j for j, ag in enumerate(agents) if ag is args[0])
+                        polled.append(i)
+                        if _verdicts[i] == "CRASH":
+                            raise PyRaise(ExcVal("RuntimeError", ("agent crashed",)))
+                        return interp.instantiate(ap, [_verdicts[i], "payload", 1.0], {})
+                    it.stubs["BioAgent.express"] = express
+                    outs_ = []
+                    for _round in (1, 2):      # the second vote on the same colony must count the same ballots
+                        del polled[:]
+                        r = it.call_fi(runv, [qo, "proposal"], {})
+                        outs_.append(dict(polled=sorted(polled), total=r.fields["total_votes"], permit=r.fields["permit_votes"], block=r.fields["block_votes"], abstain=r.fields["abstain_votes"],
+                                          nvotes=len(r.fields["votes"]), reached=r.fields["reached"]))
+                    return outs_
+                try:
+                    res8 = [r for _, r in explore(go8, max_paths=20)]
+                except Imprecise as e:
+                    raise AnchorError(f"run_vote could not be interpreted: {e}")
+                for outs_ in res8:
+                    for rnd, r in enumerate(outs_, 1):
+                        n8 += 1
+                        want = dict(polled=list(range(len(names))), total=len(names), permit=verdicts.count("PERMIT"), block=verdicts.count("BLOCK"), abstain=verdicts.count("CRASH"), nvotes=len(names))
+                        got = {k_: r[k_] for k_ in want}
+                        if got != want:
+                            bad8.append(f"members {list(names)} voting {list(verdicts)} ({strategy}, vote {rnd}): polled {r['polled']}, reported total={r['total']} permit={r['permit']} block={r['block']} abstain={r['abstain']} in {r['nvotes']} ballots")
+                        elif strategy == "UNANIMOUS" and r["reached"] is True and "BLOCK" in verdicts:
+                            bad8.append(f"members {list(names)} voting {list(verdicts)}: UNANIMOUS reached although a member blocked")
+    key = "QuorumSensing.run_vote ▸ one counted ballot per colony member (namesakes, two successive votes)"
+    if bad8:
+        led.fail("C06-R8", key, where(runv, runv.node), f"{len(set(bad8))} case(s), e.g. {sorted(set(bad8))[0]}", path=sorted(set(bad8))[:6],
+                 witness="three replicas named 'reviewer' voting PERMIT, BLOCK, BLOCK: reported as 1 ballot")
+    else:
+        led.ok("C06-R8", key, where(runv, runv.node), f"{n8} votes over colonies of 2–3 members (distinct and shared names) × every PERMIT/BLOCK/crash assignment × 2 strategies × 2 successive votes: every member polled once, counts equal the ballots cast")
 
     def go_fail(o):
         it = Interp(p, o)
